@@ -515,6 +515,13 @@ func finalizeClient(c *Client) {
 // A ClientPromise resolves the identity of a client created by NewPromisedClient.
 type ClientPromise struct {
 	h *clientHook
+
+	// lazyShutdown lets Fulfill return without waiting for calls that are
+	// still in flight on the promise's hook; the hook is then shut down by
+	// a goroutine once they have finished.  It is set for the pipelined
+	// clients of a Promise, whose in-flight calls can only finish after
+	// the Promise has resolved, i.e. after Fulfill has returned.
+	lazyShutdown bool
 }
 
 // Fulfill resolves the client promise to c.  After Fulfill returns,
@@ -573,6 +580,17 @@ func (cp *ClientPromise) Fulfill(c *Client) {
 	if rh != nil {
 		rh.refs += refs - moved
 		rh.mu.Unlock()
+	}
+	if cp.lazyShutdown {
+		select {
+		case <-cp.h.done:
+		default:
+			go func() {
+				<-cp.h.done
+				cp.h.Shutdown()
+			}()
+			return
+		}
 	}
 	<-cp.h.done
 	cp.h.Shutdown()
